@@ -165,6 +165,65 @@ fn mlpst(v: &Value) -> Value {
     json!({"ok": true, "why": ""})
 }
 
+/// KZG10 used directly: commitment = one G1 element, proof = G1 element + option (+ one scalar when hiding).
+fn kzg10_direct(v: &Value) -> Value {
+    use ark_poly_commit::kzg10::{Powers, KZG10};
+    use ark_poly::DenseUVPolynomial;
+    type K = KZG10<E381, UniPoly<Fr381>>;
+    let deg = v["cfg"]["deg"].as_u64().unwrap() as usize;
+    let hid = v["cfg"]["hid"].as_bool().unwrap();
+    let mut rng = rng_for("sizes-kzg10", deg as u64);
+    let pp = match guarded(|| K::setup(deg.max(2), false, &mut rng)) { Out::Ok(p) => p, o => return json!({"ok": false, "why": format!("setup: {}", o.detail())}) };
+    let sup = deg.max(2);
+    let powers = Powers::<E381> {
+        powers_of_g: std::borrow::Cow::Owned(pp.powers_of_g[..=sup].to_vec()),
+        powers_of_gamma_g: std::borrow::Cow::Owned((0..=sup).map(|i| pp.powers_of_gamma_g[&i]).collect()),
+    };
+    let p = UniPoly::<Fr381>::rand(deg, &mut rng);
+    let (c, r) = match guarded(|| K::commit(&powers, &p, if hid { Some(1) } else { None }, Some(&mut rng as &mut dyn RngCore))) {
+        Out::Ok(x) => x, o => return json!({"ok": false, "why": format!("commit: {}", o.detail())}) };
+    let z = Fr381::rand(&mut rng);
+    let pr = match guarded(|| K::open(&powers, &p, z, &r)) { Out::Ok(x) => x, o => return json!({"ok": false, "why": format!("open: {}", o.detail())}) };
+    let (wc, wp) = (units(&v["comm"], 48, 96, 32), units(&v["proof"], 48, 96, 32));
+    let (sc, sp) = (c.serialized_size(Compress::Yes), pr.serialized_size(Compress::Yes));
+    let mut bytes = vec![];
+    pr.serialize_compressed(&mut bytes).unwrap();
+    if sc != wc || sp != wp || bytes.len() != sp {
+        return json!({"ok": false, "why": format!("KZG10 sizes {} / {} ({} bytes written), laws {} / {}", sc, sp, bytes.len(), wc, wp)});
+    }
+    json!({"ok": true, "why": ""})
+}
+
+/// Streaming KZG: commitment and evaluation proof are one G1 element each, for any number of polynomials and points.
+fn stream(v: &Value) -> Value {
+    use ark_poly_commit::streaming_kzg::{CommitterKey, VerifierKey};
+    let deg = v["cfg"]["deg"].as_u64().unwrap() as usize;
+    let k = v["cfg"]["k"].as_u64().unwrap() as usize;
+    let mut rng = rng_for("sizes-stream", (deg * 8 + k) as u64);
+    let ck = CommitterKey::<E381>::new(deg, 3, &mut rng);
+    let vk = VerifierKey::from(&ck);
+    let polys: Vec<Vec<Fr381>> = (0..k).map(|_| (0..=deg).map(|_| Fr381::rand(&mut rng)).collect()).collect();
+    let comms: Vec<_> = polys.iter().map(|p| ck.commit(p)).collect();
+    let pts: Vec<Fr381> = (0..2).map(|_| Fr381::rand(&mut rng)).collect();
+    let eta = Fr381::rand(&mut rng);
+    let refs: Vec<&Vec<Fr381>> = polys.iter().collect();
+    let proof = ck.batch_open_multi_points(&refs, &pts, &eta);
+    let evals: Vec<Vec<Fr381>> = polys.iter().map(|p| {
+        let q = UniPoly::<Fr381> { coeffs: p.clone() };
+        pts.iter().map(|z| q.evaluate(z)).collect()
+    }).collect();
+    if vk.verify_multi_points(&comms, &pts, &evals, &proof, &eta).is_err() {
+        return json!({"ok": false, "why": "measured streaming proof does not verify"});
+    }
+    let (wc, wp) = (units(&v["comm"], 48, 96, 32), units(&v["proof"], 48, 96, 32));
+    let sc = comms[0].size_in_bytes();
+    let sp = proof.0.serialized_size(Compress::Yes);
+    if sc != wc || sp != wp {
+        return json!({"ok": false, "why": format!("streaming sizes {} / {}, laws {} / {}", sc, sp, wc, wp)});
+    }
+    json!({"ok": true, "why": ""})
+}
+
 pub fn check_size(v: &Value) -> Value {
     let g1 = <E381 as Pairing>::G1Affine::default().serialized_size(Compress::Yes);
     let g2 = <E381 as Pairing>::G2Affine::default().serialized_size(Compress::Yes);
@@ -179,6 +238,8 @@ pub fn check_size(v: &Value) -> Value {
         "ligero_ml" => trait_case::<LigeroMl>(v, 0, 0, 32),
         "brakedown" => trait_case::<Brakedown>(v, 0, 0, 32),
         "mlpst" => mlpst(v),
+        "kzg10" => kzg10_direct(v),
+        "stream" => stream(v),
         s => json!({"ok": false, "why": format!("unknown scheme {}", s)}),
     }
 }
